@@ -1,6 +1,7 @@
 import PgBifrost.Proofs.BatcherFaithful
 import PgBifrost.Proofs.BatcherAccounting
 import PgBifrost.Proofs.BatcherSeenOrder
+import PgBifrost.Proofs.SysExample
 /-!
 # C04 — every filtered-in change reaches the sink exactly once, intact (batcher layer)
 
@@ -260,5 +261,64 @@ example :
   intro b d1 d2 c cfg r
   exact seen_total_accounting (genericLaws 3 (by omega)) cfg _ (fun _ _ => trivial) (by decide)
     [] [b, d1, d2] c [] rfl rfl (by simp) (by decide) (by simp) (by simp) (by intros; rfl)
+
+/-! ## Top: exactly once at the sink of the composed system (`Model/Sys.lean`; the sink eventually
+accepts everything: every queue empty, every worker idle, all open batches flushed;
+`Sys.Env`, `Sys.Sched`: see `Props/C01.lean`) -/
+section sys
+variable {K : Kind} {big bad : Msg → Bool} {dom : Msg → Prop}
+
+/-- **C04 Top, multiset, any input.** If the tracker is alive, every queue is empty, every worker
+idle and no open batch holds a record, then `sinkAccepted` is, as a multiset, exactly the accepted
+(neither too big nor invalid) data messages of the input: each exactly once, nothing else. (No
+grammar hypothesis: only `hlive` depends on the input's shape.) -/
+theorem sys_exactly_once_live (bcfg : Cfg) (hK : Sys.KindOK K big bad dom) (acts : List Sys.Act)
+    (hdom : ∀ m ∈ Sys.fedMsgs acts, m.op = .data → dom m)
+    (hlive : (Sys.run ⟨K, bcfg⟩ acts).dead = false)
+    (hq : (Sys.run ⟨K, bcfg⟩ acts).queue = []) (hh : (Sys.run ⟨K, bcfg⟩ acts).held = [])
+    (hopen : ∀ p ∈ (Sys.run ⟨K, bcfg⟩ acts).bat.openB, p.2.payload = []) :
+    (Sys.run ⟨K, bcfg⟩ acts).sinkAccepted.Perm
+      ((Sys.fedMsgs acts).filter (fun m => m.op == .data && !big m && !bad m)) :=
+  Sys.exactly_once_multiset bcfg hK acts hdom hlive hq hh hopen
+
+/-- **C04 Top (`sys_exactly_once`).** Under the input hypotheses, at quiescence:
+(1) as a multiset `sinkAccepted` = all accepted data messages, each exactly once; (2) if every batch
+of a partition key goes to one worker (partition routing, or a single worker), `sinkAccepted`
+restricted to each partition key equals the accepted data messages of that key IN INPUT ORDER
+(from `batcher_partition_faithful` + "every dispatched batch was accepted exactly once, per key in
+dispatch order"). Without the routing hypothesis (2) fails: see the example below. -/
+theorem sys_exactly_once (bcfg : Cfg) (redeliver : Bool) (acts : List Sys.Act)
+    (hE : Sys.Env redeliver K big bad dom acts) (hs : Sys.Sched redeliver ⟨K, bcfg⟩ acts)
+    (hq : (Sys.run ⟨K, bcfg⟩ acts).queue = []) (hh : (Sys.run ⟨K, bcfg⟩ acts).held = [])
+    (hopen : ∀ p ∈ (Sys.run ⟨K, bcfg⟩ acts).bat.openB, p.2.payload = []) :
+    (Sys.run ⟨K, bcfg⟩ acts).sinkAccepted.Perm
+      ((Sys.fedMsgs acts).filter (fun m => m.op == .data && !big m && !bad m)) ∧
+    ((bcfg.routing = .partition ∨ bcfg.workers = 1) → ∀ pk : PKey,
+      (Sys.run ⟨K, bcfg⟩ acts).sinkAccepted.filter (fun m => m.pkey = pk) =
+        (Sys.fedMsgs acts).filter (fun m => m.op == .data && decide (m.pkey = pk) && !big m && !bad m)) := by
+  have hlive := Sys.never_dead bcfg redeliver acts hE hs
+  refine ⟨Sys.exactly_once_multiset bcfg hE.kind acts hE.dom hlive hq hh hopen, fun hr pk => ?_⟩
+  rcases hr with hr | hr
+  · exact Sys.exactly_once_per_key bcfg hE.kind _ (Sys.routed_partition hE.kind bcfg hr) acts hE.dom hlive hq hh hopen pk
+  · exact Sys.exactly_once_per_key bcfg hE.kind _ (Sys.routed_single hE.kind bcfg hr) acts hE.dom hlive hq hh hopen pk
+
+/-- without that routing hypothesis the per-key order can fail: in `Sys.exActs` (round robin, two
+workers) the later key-1 batch `[3,6]` is accepted before the earlier `[1,2]` -/
+example : ((Sys.run Sys.exCfg Sys.exActs).sinkAccepted.filter (fun m => m.pkey = [1])).map (·.id) = [3, 6, 1, 2] := by
+  decide
+
+/-- non-vacuity of (2): one worker, two partition keys interleaved in the input (`Sys.ex1Acts`,
+sink order `[1, 3, 2, 4]`): per key the sink has the input order -/
+example : ∀ pk : PKey, (Sys.run Sys.ex1Cfg Sys.ex1Acts).sinkAccepted.filter (fun m => m.pkey = pk) =
+    (Sys.fedMsgs Sys.ex1Acts).filter (fun m => m.op == .data && decide (m.pkey = pk) && !genericBig m && !genericBad m) :=
+  (sys_exactly_once Sys.ex1Cfg.bcfg false Sys.ex1Acts Sys.ex1Env (Or.inl rfl) Sys.ex1_sink.2.1 Sys.ex1_sink.2.2.1
+    Sys.ex1_sink.2.2.2).2 (Or.inr rfl)
+
+/-- non-vacuity of (1) on the example run -/
+example : (Sys.run Sys.exCfg Sys.exActs).sinkAccepted.Perm
+    ((Sys.fedMsgs Sys.exActs).filter (fun m => m.op == .data && !genericBig m && !genericBad m)) :=
+  (sys_exactly_once Sys.exCfg.bcfg false Sys.exActs Sys.exEnv (Or.inl rfl) (by decide) (by decide) (by decide)).1
+
+end sys
 
 end PgBifrost.Props.C04
